@@ -26,6 +26,8 @@ RFILE = "ethosu/vela/range_set.py"
 def run(repo, rep):
     rep.clause("C04-a", "MemoryAccessSet.conflicts reports RAW, WAR and WAW (and only those); RangeSet keeps the sorted order its sweep relies on")
     rep.clause("C04-b", "every address-bearing field of the API operation classes enters the access set with the right direction; LUT/SHRAM ranges present")
+    rep.clause("C04-l", "the kernel seen by the block dependency calculation is the kernel that is programmed: to_kernel forwards width, height, strides and dilations")
+    rule_kernel_forwarding(repo, rep)
     rep.clause("C04-k", "block dependency: the operator kinds that consume the whole IFM depth agree between the stripe transform and get_ifm_ofm_block_depth (Conv2D and REDUCE_SUM)")
     rule_depth_consuming_kinds(repo, rep)
     rep.clause("C04-j", "the emitted BLOCKDEP always derives from calc_blockdep for the operation and its predecessor kernel (no shortcut under a side condition)")
@@ -884,3 +886,26 @@ def rule_depth_consuming_kinds(repo, rep):
     missing = [nm for full, nm in need if full not in txt]
     rep.check(not missing, "C04-k", site, f"the operators judged by their IFM block depth are those that read the whole IFM depth ({sorted(kinds)} in the stripe transform)",
               f"{missing} is judged by its OFM depth: ABS (two depth blocks) -> REDUCE_SUM gets BLOCKDEP 1, the first REDUCE_SUM job reads channels 16..31 which the producer's last block writes (RAW)")
+
+
+def rule_kernel_forwarding(repo, rep):
+    """(l) to_kernel converts the API kernel into the internal Kernel that calc_blockdep uses for the IFM volume of the first block jobs:
+    every member of NpuKernel that Kernel.__init__ has a parameter for is forwarded, at that parameter's position (a dropped dilation
+    makes the volume too small: the overlap with the producer's last blocks is missed and BLOCKDEP is too large)."""
+    ru = repo.mod("register_command_stream_util")
+    f = ru.func("to_kernel")
+    api = repo.mod("api")
+    opm = repo.mod("operation")
+    ki = opm.func("Kernel.__init__")
+    kparams = [a.arg for a in ki.args.args][1:]
+    ni = api.func("NpuKernel.__init__")
+    members = [a.arg for a in ni.args.args][1:]
+    alias = {"w": "width", "h": "height"}
+    want = [f"kernel.{alias.get(p, p)}" for p in kparams if alias.get(p, p) in [alias.get(mm, mm) for mm in members]]
+    calls = [c for c in ast.walk(f) if isinstance(c, ast.Call) and call_name(c) == "Kernel" and len(c.args) > 2]
+    if len(calls) != 1:
+        raise AnalysisError("to_kernel: the Kernel construction was not found")
+    got = [str(norm(a)) for a in calls[0].args] + [f"{k.arg}={str(norm(k.value))}" for k in calls[0].keywords]
+    ok = got[: len(want)] == want or all(f"{p}=kernel.{alias.get(p, p)}" in got or (i < len(calls[0].args) and got[i] == want[i]) for i, p in enumerate(kparams[: len(want)]))
+    rep.check(ok and len(want) >= 6, "C04-l", "ethosu/vela/register_command_stream_util.py:to_kernel", f"every kernel member is forwarded in order: Kernel({', '.join(want)})",
+              f"Kernel({', '.join(got)}): a member is dropped or misplaced; without the dilation calc_blockdep under-estimates the IFM rows of the first jobs (BLOCKDEP 2 for 1, 3 for 2 on dilated convolutions)")
